@@ -17,7 +17,7 @@ CACHE_OPS = {
     "tensordot": 7, "align_axes": 3, "transpose": 3, "conj": 3, "dagger": 2,
     "svd_truncated": 2, "squeeze": 1, "expand_dims": 1, "sync_charges": 2,
     "multiply_diagonal": 2, "matmul": 1, "einsum": 1, "qr": 1, "copy": 1,
-    "tdot_scalar": 1,
+    "tdot_scalar": 1, "sparsity": 1, "reassemble": 1,
 }
 
 UNARY_ECHO = {
@@ -247,6 +247,8 @@ class C15A(EngineBase):
         """Book-keeping of roots and lineages for the echo generator."""
         op = step["op"]
         if op == "new":
+            if "indices" not in step["a"]["spec"]:
+                return
             n = step["out"][0]
             st.roots[n] = step["a"]["spec"]
             st.rootof[n] = n
@@ -393,7 +395,8 @@ class C15B(EngineBase):
     def make_config(self, streams, tier):
         r = streams.get("config")
         depth = r.choice([1, 1, 2, 3])
-        exitk = r.choice(["crash", "crash", "crash", "exception", "return", "break", "normal"])
+        exitk = r.choice(["crash", "crash", "crash", "exception", "return", "break", "normal",
+                          "generator_close", "decorator", "decorator_exception"])
         return {
             "outer": r.choice(MODES),
             "outer_none": r.random() < 0.3,
@@ -505,7 +508,35 @@ class C15B(EngineBase):
         def nested(level):
             before = get()
             try:
-                if cfg["exit"] == "break":
+                if cfg["exit"] == "generator_close" and level == len(modes) - 1:
+                    # the block is entered inside a generator that is suspended
+                    # at a yield and then closed: GeneratorExit leaves the block
+                    def gen():
+                        with core.sr.default_tensordot_mode(modes[level]):
+                            if get() != modes[level]:
+                                checks.append(("mode-inside-block", f"level {level} (generator)"))
+                            run_body()
+                            yield 1
+                            yield 2
+                    g = gen()
+                    next(g)
+                    if cfg["inner_set"] is None and get() != modes[level]:
+                        checks.append(("mode-inside-block", f"level {level}: suspended generator"))
+                    g.close()
+                elif cfg["exit"] in ("decorator", "decorator_exception") and level == len(modes) - 1:
+                    @core.sr.default_tensordot_mode(modes[level])
+                    def decorated():
+                        if get() != modes[level]:
+                            checks.append(("mode-inside-block", f"level {level} (decorator)"))
+                        run_body()
+                        if cfg["exit"] == "decorator_exception":
+                            raise UserError("user code failed")
+                    decorated()
+                    # a second call must behave the same (the manager is re-created)
+                    if get() != before:
+                        checks.append(("mode-restored-on-exit", f"decorator: {get()!r} after first call, was {before!r}"))
+                    decorated()
+                elif cfg["exit"] == "break":
                     for _ in range(1):
                         with core.sr.default_tensordot_mode(modes[level]):
                             if get() != modes[level]:
@@ -629,6 +660,8 @@ THREAD_OPS = {
     "to_dense": 2, "phase": 2, "conj": 3, "dagger": 2, "qr": 1, "svd": 1,
     "unary": 1, "transpose": 3, "einsum": 1, "copy": 1, "align_axes": 1,
     "svd_truncated": 1, "multiply_diagonal": 1, "matmul": 1, "arith2": 1,
+    "solve": 1, "eigh": 1, "trace": 1, "squeeze": 1, "expand_dims": 1, "sync_charges": 1,
+    "sparsity": 2, "new": 2, "reassemble": 1, "tdot_scalar": 1,
 }
 
 _TIERS = None
@@ -740,6 +773,12 @@ class C15C(EngineBase):
         tries = 0
         while len(pool) < cfg["npool"] and tries < 40:
             tries += 1
+            if rng.random() < 0.2:
+                # the same constructor call made by several threads
+                spec = ctx.new_spec()
+                spec["via"] = rng.choice(["random", "from_fill_fn", "from_blocks"])
+                pool.append({"op": "new", "in": [], "out": [ctx.fresh()], "a": {"spec": spec}})
+                continue
             steps = ops.gen_steps(ctx, shared_heap)
             if len(steps) == 1 and steps[0]["op"] not in ("new", "newvec", "del", "copy"):
                 pool.append(steps[0])
